@@ -97,6 +97,14 @@ NilSeqProbes == <<
   Ob(Fl(Fl(Var(A), "map", <<Lit(Str(KK))>>), "join", <<>>)), Ob(Fl(Fl(Var(A), "sort", <<>>), "join", <<>>)), Ob(Fl(Var(A), "first", <<>>)), Ob(Fl(Fl(Var(A), "last", <<>>), "upcase", <<>>)),
   Ob(Fl(Ix(Var(A), Lit(IntV(1))), "append", <<Bang>>)), Ob(Fl(Ix(Var(A), Lit(IntV(1))), "size", <<>>)), Ob(Fl(Bang, "append", <<Ix(Var(A), Lit(IntV(1)))>>))
 >>
+\* bindings that are a graph: equal arrays and maps are one Go value reached along several paths ("@share")
+SharedProbes == <<
+  Ob(Var(M)), Ob(Fl(Var(A), "append", <<Bang>>)), Ob(Fl(Var(A), "join", <<Lit(Str(<<44>>))>>)), Ob(Var(A)), Ob(Fl(Fl(Var(A), "uniq", <<>>), "size", <<>>)),
+  [t |-> "for", tag |-> "for", var |-> <<105>>, coll |-> Var(M), body |-> <<T(<<91>>), Ob(Ix(Var(<<105>>), Lit(IntV(1)))), T(<<93>>)>>],
+  Bit(Cmp("==", P(Var(M), X), P(Var(M), Y))), Ob(Fl(Fl(Var(A), "reverse", <<>>), "first", <<>>)), Ob(Fl(P(Var(M), X), "concat", <<P(Var(M), Y)>>)),
+  Ob(Fl(Fl(Fl(Var(A), "concat", <<Var(A)>>), "compact", <<>>), "size", <<>>)), Ob(Fl(Var(M), "upcase", <<>>)), Ob(Fl(Bang, "append", <<Var(M)>>)),
+  [t |-> "assign", name |-> <<113>>, e |-> Fl(P(Var(M), X), "sort", <<>>)], Ob(Fl(Fl(Var(A), "sort", <<>>), "size", <<>>))
+>>
 SeqReprs == {"", "ints", "int64s", "int32s", "int16s", "int8s", "uints", "uint16s", "uint32s", "uint64s", "float64s", "array2", "drop", "ptr"}
 
 \* ------------------------------------------------------------------ cases
@@ -110,6 +118,7 @@ Cases ==
   \cup [g : {"seq"}, r : {"", "ints", "array3", "drop", "ptr"}, er : {"", "drop", "int8", "uint16"}]
   \cup [g : {"seqtext"}, r : SeqReprs \ {""}, p : 1..Len(SeqTextProbes)]
   \cup [g : {"nilseq"}, r : {"", "array3", "drop", "ptr"}, er : {"drop"}, p : 1..Len(NilSeqProbes)]
+  \cup [g : {"shared"}, p : 1..Len(SharedProbes)]
   \cup [g : {"strseq"}, r : {"", "strings", "array3", "drop"}, er : {"", "drop"}]
   \* membership: every sequence representation x every width of the needle
   \cup [g : {"member"}, r : {"", "ints", "int64s", "int8s", "float64s", "array3", "drop"}, xr : 1..(Len(IntWidths) + 2), xv : {2, 5}]
@@ -128,6 +137,7 @@ ProgOf(x) ==
   CASE x.g = "member" -> MemberProg
     [] x.g = "seqtext" -> <<SeqTextProbes[x.p]>>
     [] x.g = "nilseq" -> <<NilSeqProbes[x.p]>>
+    [] x.g = "shared" -> <<SharedProbes[x.p]>>
     [] x.g \in {"num", "numf"} -> NumProg [] x.g = "flt" -> FltProg [] x.g = "seq" -> SeqProg [] x.g = "strseq" -> StrSeqProg
     [] x.g = "map" -> MapProg [] x.g = "bytes" -> BytesProg [] x.g = "ptr" -> PtrProg [] x.g = "drop" -> DropProg
 M1(k, v) == MapV(<< <<k, v>> >>)
@@ -139,6 +149,9 @@ EnvOf2(x) ==
     [] x.g = "seq" -> << <<A, Arr(<<IntV(3), IntV(1), IntV(2)>>)>>, <<<<98>>, Arr(<<IntV(3), IntV(1), IntV(2)>>)>> >>
     [] x.g = "seqtext" -> << <<A, Arr(<<IntV(104), IntV(105)>>)>>, <<<<98>>, Arr(<<IntV(104), IntV(105)>>)>> >>
     [] x.g = "nilseq" -> << <<A, Arr(<<Str(<<120>>), Nil, Str(<<121>>)>>)>> >>
+    [] x.g = "shared" -> LET one == Arr(<<IntV(1), IntV(2)>>) IN
+                           << <<A, Arr(<<one, one, Arr(<<>>), Arr(<<>>), M1(KK, IntV(1)), M1(KK, IntV(1))>>)>>,
+                              <<M, MapV(<< <<<<119>>, M1(KK, IntV(1))>>, <<X, one>>, <<Y, one>>, <<<<122>>, M1(KK, IntV(1))>> >>)>> >>
     [] x.g = "strseq" -> << <<A, Arr(<<Str(<<99>>), Str(<<97>>), Str(<<98>>)>>)>> >>
     [] x.g = "map" -> << <<M, MapV(<< <<JJ, IntV(4)>>, <<KK, IntV(1)>> >>)>> >>
     [] x.g = "bytes" -> << <<S0, Str(<<104, 195, 169, 108, 108, 111>>)>> >>
@@ -154,6 +167,7 @@ ReprOf(x) ==
                       @@ (IF x.r \in {"ints"} THEN <<>> ELSE H("b", x.r))
     [] x.g = "seqtext" -> H("a", x.r)
     [] x.g = "nilseq" -> H("a", x.r) @@ H("a/1", x.er)
+    [] x.g = "shared" -> ("@share" :> "1")
     [] x.g = "strseq" -> H("a", x.r) @@ (IF x.r \in {"", "array3", "drop"} THEN H("a/0", x.er) ELSE <<>>)
     [] x.g = "map" -> H("m", x.r) @@ (IF x.r # "mapint" THEN H("m/k", x.er) ELSE <<>>)
     [] x.g = "bytes" -> H("s", x.r)
@@ -166,7 +180,7 @@ Init == c \in Cases
 Next == UNCHANGED vars
 Ref == Render(Cx0, ProgOf(c), EnvOf(EnvOf2(c)))
 \* the reference decides every family (otherwise the comparison would be vacuous)
-ReferenceDecides == c.g \notin {"seqtext", "nilseq"} => Ref.status = "ok"
+ReferenceDecides == c.g \notin {"seqtext", "nilseq", "shared"} => Ref.status = "ok"
 
 EmitCase == PrintT(ToJson([id |-> ToString(c), kind |-> "render", prog |-> ProgOf(c), env |-> EnvOf2(c), repr |-> ReprOf(c), g |-> c.g, cmpown |-> TRUE]))
 =============================================================================
